@@ -280,3 +280,30 @@ def run(ctx, report: Report) -> None:
                              f'the package can print or warn')
     if len(import_consts) < 10:
         raise AnalysisError('fewer than 10 import-time selector constants found (anchor vanished)')
+
+    # ---- R4 ----------------------------------------------------------------------------------------------
+    r4 = report.rule('C16-R4', 'every name exported by __all__ is bound (star-import works)', floor=8)
+    for mn, mod in src.mods.items():
+        for st in mod.tree.body:
+            if not (isinstance(st, (ast.Assign, ast.AnnAssign)) and any(
+                    isinstance(t, ast.Name) and t.id == '__all__' for t in (st.targets if isinstance(st, ast.Assign) else [st.target]))):
+                continue
+            names = ctx.consts.folder.try_ev(mn, st.value, default=None)
+            if not isinstance(names, (tuple, list)) or not all(isinstance(x, str) for x in names):
+                raise AnalysisError(f'{mn}.__all__ is not a constant sequence of strings')
+            bound = set(mod.functions) | set(mod.classes) | set(mod.aliases) | set(ctx.consts.folder.env_nodes.get(mn, {}))
+            for x in ast.walk(mod.tree):
+                if isinstance(x, ast.Name) and isinstance(x.ctx, ast.Store) and mod.enclosing_function(x) is None:
+                    bound.add(x.id)
+            for nm in names:
+                ok = nm in bound
+                r4.instance({'module': mn, 'exported': nm, 'bound_at_module_level': ok}, key=f'{mn}|{nm}', sample_cap=4)
+                r4.obligation(ok)
+                if not ok:
+                    r4.violation(f'{mn}.__all__ exports unbound {nm}', mod.where(st),
+                                 f'{mn}.__all__ lists {nm!r}, which the module never binds (adjacent string literals without a comma '
+                                 f'concatenate): `from soupsieve import *` raises AttributeError')
+            dup = sorted({x for x in names if list(names).count(x) > 1})
+            if dup:
+                r4.note(f'{mn}.__all__ lists {dup} more than once')
+
